@@ -4,6 +4,9 @@ package controllers
 
 // Role B/C harness for C18, function-shaped half: every snapshot enumerated by TLC
 // (spec/ConfigLoadMC.tla) is rendered as ClusterResources and given to the real toConfig
+// for every validator mode (DontValidate, DiscardFRROnly = native, DiscardNativeOnly = frr) and through
+// every entry point (toConfig; the validating webhooks' config.NewValidator(v).Validate(lists...), which
+// gets the lists unsorted; config.For on the unsorted lists)
 //   - in the listed order (the reference),
 //   - again in the listed order, VERIF_REPS times (repeatability; Go map order),
 //   - with every permutation of every kind (one kind at a time), and with all kinds permuted at once.
@@ -18,6 +21,7 @@ import (
 	"reflect"
 	"strconv"
 	"testing"
+	"time"
 
 	v1beta1 "go.universe.tf/metallb/api/v1beta1"
 	v1beta2 "go.universe.tf/metallb/api/v1beta2"
@@ -31,36 +35,48 @@ const vNS = "metallb-system"
 type vLoadObjs struct {
 	Pools []struct {
 		Name  string   `json:"name"`
-		Cidr  int      `json:"cidr"`
+		Cidrs []int    `json:"cidrs"`
 		Ns    []string `json:"ns"`
 		Sel   bool     `json:"sel"`
 		Nssel bool     `json:"nssel"`
 		Prio  int      `json:"prio"`
 	} `json:"pools"`
 	Peers []struct {
-		Name string `json:"name"`
-		Addr int    `json:"addr"`
-		Bfd  string `json:"bfd"`
+		Name  string `json:"name"`
+		Addr  int    `json:"addr"`
+		Bfd   string `json:"bfd"`
+		Vrf   string `json:"vrf"`
+		MyASN uint32 `json:"myasn"`
+		Rid   string `json:"rid"`
+		Hold  int    `json:"hold"`
+		Ka    int    `json:"ka"`
+		Pw    string `json:"pw"`
 	} `json:"peers"`
 	Bfds []struct {
 		Name string `json:"name"`
+		Echo bool   `json:"echo"`
 	} `json:"bfds"`
 	L2advs []struct {
 		Name  string   `json:"name"`
 		Pools []string `json:"pools"`
 		Ifs   []string `json:"ifs"`
+		Nsel  []string `json:"nsel"`
 	} `json:"l2advs"`
 	Bgpadvs []struct {
 		Name  string   `json:"name"`
 		Pools []string `json:"pools"`
 		Agg4  int32    `json:"agg4"`
 		Lp    uint32   `json:"lp"`
-		Comm  string   `json:"comm"`
+		Comms []string `json:"comms"`
+		Peers []string `json:"peers"`
+		Nsel  []string `json:"nsel"`
 	} `json:"bgpadvs"`
 	Communities []struct {
-		Name  string `json:"name"`
-		Alias string `json:"alias"`
-		Value int    `json:"value"`
+		Name    string `json:"name"`
+		Aliases []struct {
+			Name  string `json:"name"`
+			Value int    `json:"value"`
+		} `json:"aliases"`
 	} `json:"communities"`
 	Nodes []struct {
 		Name string `json:"name"`
@@ -83,16 +99,33 @@ type vLoadDom struct {
 	Reps  int       `json:"reps"`
 }
 
+func vLoadCidr(c int) string {
+	if c >= 100 {
+		return fmt.Sprintf("fc00:2:%x::/64", c)
+	}
+	return fmt.Sprintf("10.2.%d.0/24", c)
+}
+
+func vZoneSelectors(vals []string) []metav1.LabelSelector {
+	var out []metav1.LabelSelector
+	for _, v := range vals {
+		out = append(out, metav1.LabelSelector{MatchLabels: map[string]string{"zone": v}})
+	}
+	return out
+}
+
 func vLoadResources(o vLoadObjs) config.ClusterResources {
 	var r config.ClusterResources
 	for _, p := range o.Pools {
 		cr := v1beta1.IPAddressPool{ObjectMeta: metav1.ObjectMeta{Name: p.Name, Namespace: vNS}}
-		cr.Spec.Addresses = []string{fmt.Sprintf("10.2.%d.0/24", p.Cidr)}
+		for _, c := range p.Cidrs {
+			cr.Spec.Addresses = append(cr.Spec.Addresses, vLoadCidr(c))
+		}
 		if len(p.Ns) > 0 || p.Sel || p.Nssel {
 			at := &v1beta1.ServiceAllocation{Priority: p.Prio}
 			at.Namespaces = append(at.Namespaces, p.Ns...)
 			if p.Sel {
-				at.ServiceSelectors = []metav1.LabelSelector{{MatchLabels: map[string]string{"app": p.Name}}}
+				at.ServiceSelectors = []metav1.LabelSelector{{MatchLabels: map[string]string{"app": p.Name}}, {MatchLabels: map[string]string{"app": "any"}}}
 			}
 			if p.Nssel {
 				at.NamespaceSelectors = []metav1.LabelSelector{{MatchLabels: map[string]string{"team": "x"}}}
@@ -102,16 +135,30 @@ func vLoadResources(o vLoadObjs) config.ClusterResources {
 		r.Pools = append(r.Pools, cr)
 	}
 	for _, p := range o.Peers {
-		r.Peers = append(r.Peers, v1beta2.BGPPeer{ObjectMeta: metav1.ObjectMeta{Name: p.Name, Namespace: vNS},
-			Spec: v1beta2.BGPPeerSpec{MyASN: 64512, ASN: 64513, Address: fmt.Sprintf("10.9.0.%d", p.Addr), BFDProfile: p.Bfd}})
+		cr := v1beta2.BGPPeer{ObjectMeta: metav1.ObjectMeta{Name: p.Name, Namespace: vNS},
+			Spec: v1beta2.BGPPeerSpec{MyASN: p.MyASN, ASN: 64600, Address: fmt.Sprintf("10.9.0.%d", p.Addr), BFDProfile: p.Bfd,
+				VRFName: p.Vrf, RouterID: p.Rid, Password: p.Pw}}
+		if p.Hold > 0 {
+			cr.Spec.HoldTime = &metav1.Duration{Duration: time.Duration(p.Hold) * time.Millisecond}
+		}
+		if p.Ka > 0 {
+			cr.Spec.KeepaliveTime = &metav1.Duration{Duration: time.Duration(p.Ka) * time.Millisecond}
+		}
+		r.Peers = append(r.Peers, cr)
 	}
 	for _, p := range o.Bfds {
-		r.BFDProfiles = append(r.BFDProfiles, v1beta1.BFDProfile{ObjectMeta: metav1.ObjectMeta{Name: p.Name, Namespace: vNS}})
+		cr := v1beta1.BFDProfile{ObjectMeta: metav1.ObjectMeta{Name: p.Name, Namespace: vNS}}
+		if p.Echo {
+			e := true
+			cr.Spec.EchoMode = &e
+		}
+		r.BFDProfiles = append(r.BFDProfiles, cr)
 	}
 	for _, a := range o.L2advs {
 		cr := v1beta1.L2Advertisement{ObjectMeta: metav1.ObjectMeta{Name: a.Name, Namespace: vNS}}
 		cr.Spec.IPAddressPools = append(cr.Spec.IPAddressPools, a.Pools...)
 		cr.Spec.Interfaces = append(cr.Spec.Interfaces, a.Ifs...)
+		cr.Spec.NodeSelectors = vZoneSelectors(a.Nsel)
 		r.L2Advs = append(r.L2Advs, cr)
 	}
 	for _, a := range o.Bgpadvs {
@@ -120,14 +167,17 @@ func vLoadResources(o vLoadObjs) config.ClusterResources {
 		agg := a.Agg4
 		cr.Spec.AggregationLength = &agg
 		cr.Spec.LocalPref = a.Lp
-		if a.Comm != "" {
-			cr.Spec.Communities = []string{a.Comm}
-		}
+		cr.Spec.Communities = append(cr.Spec.Communities, a.Comms...)
+		cr.Spec.Peers = append(cr.Spec.Peers, a.Peers...)
+		cr.Spec.NodeSelectors = vZoneSelectors(a.Nsel)
 		r.BGPAdvs = append(r.BGPAdvs, cr)
 	}
 	for _, c := range o.Communities {
-		r.Communities = append(r.Communities, v1beta1.Community{ObjectMeta: metav1.ObjectMeta{Name: c.Name, Namespace: vNS},
-			Spec: v1beta1.CommunitySpec{Communities: []v1beta1.CommunityAlias{{Name: c.Alias, Value: "64512:" + strconv.Itoa(c.Value)}}}})
+		cr := v1beta1.Community{ObjectMeta: metav1.ObjectMeta{Name: c.Name, Namespace: vNS}}
+		for _, al := range c.Aliases {
+			cr.Spec.Communities = append(cr.Spec.Communities, v1beta1.CommunityAlias{Name: al.Name, Value: "64512:" + strconv.Itoa(al.Value)})
+		}
+		r.Communities = append(r.Communities, cr)
 	}
 	for _, n := range o.Nodes {
 		r.Nodes = append(r.Nodes, corev1.Node{ObjectMeta: metav1.ObjectMeta{Name: n.Name, Labels: map[string]string{"zone": n.Zone}}})
@@ -204,16 +254,23 @@ type vTally struct {
 	First []int  `json:"first"` // first permutation with a different value / verdict
 }
 
+// one validator mode through one entry point
+type vModeObs struct {
+	Mode    string   `json:"mode"`  // none = DontValidate, native = DiscardFRROnly, frr = DiscardNativeOnly
+	Entry   string   `json:"entry"` // toConfig (value + verdict), webhook = NewValidator(v).Validate(lists), for = config.For(unsorted, v)
+	FirstOk bool     `json:"first_ok"`
+	Err     string   `json:"err"`
+	Reps    vTally   `json:"reps"`
+	Kinds   []vTally `json:"kinds"`
+	Comb    vTally   `json:"comb"`
+}
+
 type vLoadObs struct {
-	T       string          `json:"t"`
-	ID      string          `json:"id"`
-	Snap    json.RawMessage `json:"snap"`
-	FirstOk bool            `json:"first_ok"`
-	Err     string          `json:"err"`
-	Panic   string          `json:"panic"`
-	Reps    vTally          `json:"reps"`
-	Kinds   []vTally        `json:"kinds"`
-	Comb    vTally          `json:"comb"`
+	T     string          `json:"t"`
+	ID    string          `json:"id"`
+	Snap  json.RawMessage `json:"snap"`
+	Panic string          `json:"panic"`
+	Modes []vModeObs      `json:"modes"`
 }
 
 func vClean(s string) string {
@@ -229,32 +286,49 @@ func vClean(s string) string {
 	return string(b)
 }
 
-func vLoadRun(sc vLoadScen, dom vLoadDom) (o vLoadObs) {
-	o = vLoadObs{T: "load", ID: sc.ID, Snap: sc.Snap, Kinds: []vTally{}}
-	o.Reps.First, o.Comb.First = []int{}, []int{}
-	defer func() {
-		if r := recover(); r != nil {
-			o.Panic = vClean(fmt.Sprint(r))
-		}
-	}()
+var vLoadModes = []struct {
+	name string
+	v    config.Validate
+}{{"none", config.DontValidate}, {"native", config.DiscardFRROnly}, {"frr", config.DiscardNativeOnly}}
+
+// vLoadOnce: one load through one entry point; the value only for toConfig.
+func vLoadOnce(entry string, r config.ClusterResources, v config.Validate) (*config.Config, error) {
+	switch entry {
+	case "toConfig":
+		return toConfig(r, v)
+	case "for":
+		_, err := config.For(r, v)
+		return nil, err
+	}
+	// the validating webhooks' entry point: the lists as the API server returned them
+	err := config.NewValidator(v).Validate(
+		&v1beta1.IPAddressPoolList{Items: r.Pools}, &v1beta2.BGPPeerList{Items: r.Peers}, &v1beta1.BFDProfileList{Items: r.BFDProfiles},
+		&v1beta1.BGPAdvertisementList{Items: r.BGPAdvs}, &v1beta1.L2AdvertisementList{Items: r.L2Advs},
+		&v1beta1.CommunityList{Items: r.Communities}, &corev1.NodeList{Items: r.Nodes})
+	return nil, err
+}
+
+func vLoadMode(sc vLoadScen, dom vLoadDom, mode string, v config.Validate, entry string, reps int) vModeObs {
+	m := vModeObs{Mode: mode, Entry: entry, Kinds: []vTally{}}
+	m.Reps.First, m.Comb.First = []int{}, []int{}
 	base := vLoadResources(sc.Objs)
-	ref, err := toConfig(base, config.DontValidate)
-	o.FirstOk = err == nil
+	ref, err := vLoadOnce(entry, base, v)
+	m.FirstOk = err == nil
 	if err != nil {
-		o.Err = vClean(err.Error())
+		m.Err = vClean(err.Error())
 	}
 	tally := func(t *vTally, r config.ClusterResources, pi []int) {
-		cfg, e := toConfig(r, config.DontValidate)
+		cfg, e := vLoadOnce(entry, r, v)
 		t.Runs++
 		diff := false
 		if e != nil {
 			t.Nrej++
-			diff = o.FirstOk
+			diff = m.FirstOk
 		} else {
 			t.Nacc++
-			if !o.FirstOk {
+			if !m.FirstOk {
 				diff = true
-			} else if !reflect.DeepEqual(ref, cfg) {
+			} else if entry == "toConfig" && !reflect.DeepEqual(ref, cfg) {
 				t.Neq++
 				diff = true
 			}
@@ -263,9 +337,9 @@ func vLoadRun(sc vLoadScen, dom vLoadDom) (o vLoadObs) {
 			t.First = append(t.First, pi...)
 		}
 	}
-	o.Reps.Kind = "reps"
-	for k := 0; k < dom.Reps; k++ {
-		tally(&o.Reps, base, nil)
+	m.Reps.Kind = "reps"
+	for k := 0; k < reps; k++ {
+		tally(&m.Reps, base, nil)
 	}
 	maxPerms := 1
 	for _, kind := range vKinds {
@@ -280,10 +354,10 @@ func vLoadRun(sc vLoadScen, dom vLoadDom) (o vLoadObs) {
 				tally(&t, vWithPerm(base, kind, pi), pi)
 			}
 		}
-		o.Kinds = append(o.Kinds, t)
+		m.Kinds = append(m.Kinds, t)
 	}
 	// all kinds permuted at once: the j-th permutation of every kind
-	o.Comb.Kind = "combined"
+	m.Comb.Kind = "combined"
 	for j := 1; j < maxPerms; j++ {
 		r := base
 		for _, kind := range vKinds {
@@ -292,7 +366,26 @@ func vLoadRun(sc vLoadScen, dom vLoadDom) (o vLoadObs) {
 				r = vWithPerm(r, kind, perms[j%len(perms)])
 			}
 		}
-		tally(&o.Comb, r, []int{j})
+		tally(&m.Comb, r, []int{j})
+	}
+	return m
+}
+
+func vLoadRun(sc vLoadScen, dom vLoadDom) (o vLoadObs) {
+	o = vLoadObs{T: "load", ID: sc.ID, Snap: sc.Snap, Modes: []vModeObs{}}
+	defer func() {
+		if r := recover(); r != nil {
+			o.Panic = vClean(fmt.Sprint(r))
+		}
+	}()
+	for _, md := range vLoadModes {
+		for _, entry := range []string{"toConfig", "webhook", "for"} {
+			reps := dom.Reps
+			if entry != "toConfig" || md.name != "none" {
+				reps = (dom.Reps + 3) / 4
+			}
+			o.Modes = append(o.Modes, vLoadMode(sc, dom, md.name, md.v, entry, reps))
+		}
 	}
 	return o
 }
@@ -313,9 +406,11 @@ func TestVerifConfigLoad(t *testing.T) {
 	vParallel(len(scens), func(i int) {
 		o := vLoadRun(scens[i], dom)
 		out[i] = []interface{}{o}
-		total[i] = o.Reps.Runs + o.Comb.Runs + 1
-		for _, k := range o.Kinds {
-			total[i] += k.Runs
+		for _, m := range o.Modes {
+			total[i] += m.Reps.Runs + m.Comb.Runs + 1
+			for _, k := range m.Kinds {
+				total[i] += k.Runs
+			}
 		}
 	})
 	vWriteObs(out)
